@@ -333,6 +333,25 @@ enum { // must match DirectFn in ops_ext.inc
         D_KASUMI_F8_4, D_KASUMI_F8_N, D_KASUMI_F9_1, D_CHACHAPOLY_IUF, D_QUIC_GCM, D_QUIC_CHACHAPOLY, D_QUIC_HP_AES, D_QUIC_HP_CHACHA,
         D_CFB_ONE, D_SHA_ONE_BLOCK, D_NFN
 };
+bool
+same_len_op(int a)
+{
+        // only the multi-buffer stream-cipher / MAC calls with one length per buffer take part in the length-edge bias
+        switch (a) {
+        case D_ZUC_EEA3_4:
+        case D_ZUC_EEA3_N:
+        case D_ZUC_EIA3_N:
+        case D_SNOW3G_F8_2:
+        case D_SNOW3G_F8_4:
+        case D_SNOW3G_F8_8:
+        case D_SNOW3G_F8_N:
+        case D_SNOW3G_F8_8_MK:
+        case D_SNOW3G_F8_N_MK:
+        case D_KASUMI_F8_2:
+        case D_KASUMI_F8_N: return false;
+        default: return true;
+        }
+}
 uint32_t
 burst_size(Rng &r)
 {
@@ -580,6 +599,25 @@ gen_plan_entry(const ProfileCfg &pc, uint64_t run_seed)
                                 if (s.hash == IMB_AUTH_GHASH || op.a == D_GHASH)
                                         j.aiv_len = 16;
                                 op.jobs.push_back(j);
+                        }
+                }
+                if (op.kind == OP_DIRECT && op.jobs.size() > 1 && !same_len_op(op.a) && r.chance(0.35)) {
+                        // multi-buffer direct calls: the shortest buffer ends exactly on an internal key-stream / block group
+                        // boundary (16, 32 or 64 bytes) and every other buffer is longer - the "common part" logic's edge
+                        static const uint32_t units[3] = { 16, 32, 64 };
+                        const uint32_t base = units[r.below(3)] * r.range(1, 4);
+                        const size_t who = r.below((uint32_t) op.jobs.size());
+                        for (size_t k = 0; k < op.jobs.size(); k++) {
+                                JobSpec &j = op.jobs[k];
+                                const bool hashj = j.cipher == IMB_CIPHER_NULL;
+                                uint32_t &len = hashj ? j.h_len : j.c_len;
+                                const bool bits = hashj ? (j.hash == IMB_AUTH_ZUC_EIA3_BITLEN || j.hash == IMB_AUTH_SNOW3G_UIA2_BITLEN)
+                                                        : cipher_off_is_bits(j.cipher);
+                                const uint32_t b = bits ? base * 8 : base;
+                                if (k == who)
+                                        len = b;
+                                else if (len <= b)
+                                        len = b + (bits ? 8 : 1) * r.range(1, 200);
                         }
                 }
                 for (auto &j : op.jobs)
